@@ -13,7 +13,9 @@ import (
 	"go/ast"
 	"go/token"
 	"go/types"
+	"regexp"
 	"strings"
+	"unicode/utf8"
 )
 
 type Shape interface{ shape() }
@@ -42,7 +44,147 @@ type SAlt struct {
 	CondPath string
 	Then     Shape
 	Else     Shape
+	Pred     *textPred // set when the condition is a recognised predicate of a string whose shape is known
 }
+
+// textPred: a condition of the form [!] pattern.MatchString(s) | strings.Contains/HasPrefix/HasSuffix(s, const) |
+// s == const | s != const | len(s) ⋈ 0. When the subject's text is known at render time (a placeholder for user
+// text), the renderer evaluates the predicate and takes the arm the generator would take for that text.
+type textPred struct {
+	Neg     bool
+	Kind    string // regex contains hasprefix hassuffix equals nonempty
+	Arg     string
+	Subject Shape
+}
+
+func (p *textPred) eval(subject string) (bool, error) {
+	v := false
+	switch p.Kind {
+	case "regex":
+		re, err := regexp.Compile(p.Arg)
+		if err != nil {
+			return false, err
+		}
+		v = re.MatchString(subject)
+	case "contains":
+		v = strings.Contains(subject, p.Arg)
+	case "hasprefix":
+		v = strings.HasPrefix(subject, p.Arg)
+	case "hassuffix":
+		v = strings.HasSuffix(subject, p.Arg)
+	case "equals":
+		v = subject == p.Arg
+	case "nonempty":
+		v = len(subject) > 0
+	default:
+		return false, fmt.Errorf("unknown predicate kind %q", p.Kind)
+	}
+	return v != p.Neg, nil
+}
+
+// userTextPath: provenance of text the grammar author wrote (an arbitrary string as far as the generator knows).
+func userTextPath(p string) bool {
+	return strings.Contains(p, ".ActionCode") || strings.Contains(p, ".GetCode()") || strings.Contains(p, ".GetCodeCopy()") || strings.Contains(p, ".GetUion()")
+}
+
+func shapeHasUserText(s Shape) bool {
+	hit := false
+	walkShape(s, func(x Shape) {
+		if h, ok := x.(*SHole); ok && userTextPath(h.Path) {
+			hit = true
+		}
+	})
+	return hit
+}
+
+// regexPatternOf: the constant pattern of a *regexp.Regexp expression — a local with the single definition
+// regexp.MustCompile(const) or a package-level variable so initialised and never assigned again.
+func (se *ShapeEval) regexPatternOf(fr *shapeFrame, e ast.Expr) string {
+	info := fr.info
+	o := identObj(info, e)
+	if o == nil {
+		return ""
+	}
+	if d, ok := fr.pc.defs.single[o]; ok {
+		if dc, ok := unparen(d).(*ast.CallExpr); ok && len(dc.Args) == 1 {
+			if f := callee(info, dc); f != nil && f.FullName() == "regexp.MustCompile" {
+				pat, _ := constString(info, dc.Args[0])
+				return pat
+			}
+		}
+	}
+	if v, ok := o.(*types.Var); ok && v.Pkg() != nil && v.Parent() == v.Pkg().Scope() {
+		if init, assigned := pkgVarInit(se.c, v); init != nil && !assigned {
+			if dc, ok := unparen(init).(*ast.CallExpr); ok && len(dc.Args) == 1 {
+				pinfo := se.c.Pkgs[v.Pkg().Path()].TypesInfo
+				if f := callee(pinfo, dc); f != nil && f.FullName() == "regexp.MustCompile" {
+					pat, _ := constString(pinfo, dc.Args[0])
+					return pat
+				}
+			}
+		}
+	}
+	return ""
+}
+
+func (se *ShapeEval) textPredOf(fr *shapeFrame, cond ast.Expr) *textPred {
+	info := fr.info
+	neg := false
+	e := unparen(cond)
+	for {
+		u, ok := e.(*ast.UnaryExpr)
+		if !ok || u.Op != token.NOT {
+			break
+		}
+		neg = !neg
+		e = unparen(u.X)
+	}
+	switch x := e.(type) {
+	case *ast.CallExpr:
+		f := callee(info, x)
+		if f == nil {
+			return nil
+		}
+		switch f.FullName() {
+		case "(*regexp.Regexp).MatchString":
+			sel, ok := unparen(x.Fun).(*ast.SelectorExpr)
+			if !ok || len(x.Args) != 1 {
+				return nil
+			}
+			if pat := se.regexPatternOf(fr, sel.X); pat != "" {
+				return &textPred{Neg: neg, Kind: "regex", Arg: pat, Subject: se.expr(fr, x.Args[0])}
+			}
+		case "strings.Contains", "strings.HasPrefix", "strings.HasSuffix":
+			if len(x.Args) == 2 {
+				if arg, ok := constString(info, x.Args[1]); ok {
+					kind := strings.ToLower(strings.TrimPrefix(f.FullName(), "strings."))
+					return &textPred{Neg: neg, Kind: kind, Arg: arg, Subject: se.expr(fr, x.Args[0])}
+				}
+			}
+		}
+	case *ast.BinaryExpr:
+		if x.Op == token.EQL || x.Op == token.NEQ {
+			for _, pr := range [][2]ast.Expr{{x.X, x.Y}, {x.Y, x.X}} {
+				if arg, ok := constString(info, pr[1]); ok && isStringType(info.TypeOf(pr[0])) {
+					return &textPred{Neg: neg != (x.Op == token.NEQ), Kind: "equals", Arg: arg, Subject: se.expr(fr, pr[0])}
+				}
+			}
+		}
+		// len(s) ⋈ 0
+		if call, ok := unparen(x.X).(*ast.CallExpr); ok && builtinName(info, call) == "len" && len(call.Args) == 1 && isStringType(info.TypeOf(call.Args[0])) {
+			if v, isC := constInt(info, x.Y); isC && v == 0 {
+				switch x.Op {
+				case token.GTR, token.NEQ:
+					return &textPred{Neg: neg, Kind: "nonempty", Subject: se.expr(fr, call.Args[0])}
+				case token.EQL, token.LEQ:
+					return &textPred{Neg: !neg, Kind: "nonempty", Subject: se.expr(fr, call.Args[0])}
+				}
+			}
+		}
+	}
+	return nil
+}
+
 type SRepl struct {
 	Base    Shape
 	Old     string
@@ -538,12 +680,40 @@ func (se *ShapeEval) mergeAlt(fr *shapeFrame, cond ast.Expr, a, b Shape) Shape {
 	if sameShape(a, b) {
 		return a
 	}
-	pa, pb := partsOf(a), partsOf(b)
+	// normalise (adjacent literals merged), then factor the common prefix: whole parts first, then the common
+	// characters of the first differing pair of literals — only the text that really differs goes into the arms
+	pa, pb := partsOf(cat(partsOf(a)...)), partsOf(cat(partsOf(b)...))
 	n := 0
 	for n < len(pa) && n < len(pb) && sameShape(pa[n], pb[n]) {
 		n++
 	}
+	common := append([]Shape{}, pa[:n]...)
+	pa, pb = append([]Shape{}, pa[n:]...), append([]Shape{}, pb[n:]...)
+	n = 0
+	if len(pa) > 0 && len(pb) > 0 {
+		la, oka := pa[0].(*SLit)
+		lb, okb := pb[0].(*SLit)
+		if oka && okb {
+			k := 0
+			for k < len(la.S) && k < len(lb.S) && la.S[k] == lb.S[k] {
+				k++
+			}
+			for k > 0 && ((k < len(la.S) && !utf8.RuneStart(la.S[k])) || (k < len(lb.S) && !utf8.RuneStart(lb.S[k]))) {
+				k--
+			}
+			if k > 0 {
+				common = append(common, &SLit{la.S[:k]})
+				pa[0], pb[0] = &SLit{la.S[k:]}, &SLit{lb.S[k:]}
+			}
+		}
+	}
+	pa = append(common, pa...)
+	pb = append(append([]Shape{}, common...), pb...)
+	n = len(common)
 	alt := &SAlt{Cond: cond, CondPath: fr.pc.path(cond), Then: cat(pa[n:]...), Else: cat(pb[n:]...)}
+	if pred := se.textPredOf(fr, cond); pred != nil && shapeHasUserText(pred.Subject) {
+		alt.Pred = pred
+	}
 	if alt.Then == nil {
 		alt.Then = &SLit{""}
 	}
@@ -767,6 +937,53 @@ func (se *ShapeEval) expr(fr *shapeFrame, e ast.Expr) Shape {
 	return se.hole(fr, "s", e)
 }
 
+// pkgVarInit returns the initialiser of a package-level variable and whether any function of its package assigns it
+// (or takes its address) afterwards.
+func pkgVarInit(c *Ctx, v *types.Var) (ast.Expr, bool) {
+	p := c.Pkgs[v.Pkg().Path()]
+	if p == nil {
+		return nil, true
+	}
+	var init ast.Expr
+	assigned := false
+	for _, f := range p.Syntax {
+		for _, d := range f.Decls {
+			switch x := d.(type) {
+			case *ast.GenDecl:
+				for _, sp := range x.Specs {
+					if vs, ok := sp.(*ast.ValueSpec); ok {
+						for i, n := range vs.Names {
+							if p.TypesInfo.Defs[n] == v && i < len(vs.Values) {
+								init = vs.Values[i]
+							}
+						}
+					}
+				}
+			case *ast.FuncDecl:
+				if x.Body == nil {
+					continue
+				}
+				ast.Inspect(x.Body, func(n ast.Node) bool {
+					switch y := n.(type) {
+					case *ast.AssignStmt:
+						for _, l := range y.Lhs {
+							if identObj(p.TypesInfo, l) == types.Object(v) {
+								assigned = true
+							}
+						}
+					case *ast.UnaryExpr:
+						if y.Op == token.AND && identObj(p.TypesInfo, y.X) == types.Object(v) {
+							assigned = true
+						}
+					}
+					return true
+				})
+			}
+		}
+	}
+	return init, assigned
+}
+
 func pkgVarString(c *Ctx, v *types.Var) (string, bool) {
 	p := c.Pkgs[v.Pkg().Path()]
 	if p == nil {
@@ -869,17 +1086,7 @@ func (se *ShapeEval) regexRepl(fr *shapeFrame, call *ast.CallExpr) Shape {
 		se.errf(call.Pos(), "unrecognised ReplaceAllStringFunc call")
 		return se.hole(fr, "s", call)
 	}
-	// the regexp: local single definition regexp.MustCompile(const)
-	pattern := ""
-	if o := identObj(info, sel.X); o != nil {
-		if d, ok := fr.pc.defs.single[o]; ok {
-			if dc, ok := unparen(d).(*ast.CallExpr); ok && len(dc.Args) == 1 {
-				if f := callee(info, dc); f != nil && f.FullName() == "regexp.MustCompile" {
-					pattern, _ = constString(info, dc.Args[0])
-				}
-			}
-		}
-	}
+	pattern := se.regexPatternOf(fr, sel.X)
 	fl, ok := unparen(call.Args[1]).(*ast.FuncLit)
 	if pattern == "" || !ok || len(fl.Type.Params.List) != 1 || len(fl.Type.Params.List[0].Names) != 1 {
 		se.errf(call.Pos(), "ReplaceAllStringFunc: pattern is not a constant or the replacement is not a function literal")
